@@ -316,6 +316,7 @@ static void cmd_opt(char *s)
     else if (!strcmp(k, "FillFactor")) o->ILU_FillFactor = d; else if (!strcmp(k, "FillTol")) o->ILU_FillTol = d;
     else if (!strcmp(k, "Norm")) o->ILU_Norm = i; else if (!strcmp(k, "MILU")) o->ILU_MILU = i;
     else if (!strcmp(k, "PrintStat")) o->PrintStat = i;
+    else if (!strcmp(k, "MILUDim")) o->ILU_MILU_Dim = d;
     else { fprintf(stderr, "sluh: unknown option %s\n", k); _exit(98); }
 }
 static void cmd_work(char *s)
